@@ -669,7 +669,8 @@ def origin_and_widths(frequency, properties, center, domain=None, vector=None,
         domain = np.array(domain, dtype=np.float64)
 
     elif distance is not None:
-        domain = np.array([center-abs(distance[0]), center+abs(distance[1])])
+        domain = np.array(
+            [center-abs(distance[0]), center+abs(distance[1])], dtype=float)
 
     elif vector is not None:
         domain = np.array([vector.min(), vector.max()], dtype=float)
